@@ -31,6 +31,20 @@
 (*          with the container's pcode, oid, okind, onode.  Record-list    *)
 (*          packs (Stat*Pack): GetRecords returns the records given to     *)
 (*          SetRecords*, in order.                                         *)
+(*  Part 5  OBJECTS THAT LIVE ON.  The quantifier of the property is over  *)
+(*          every pack a program can hold, not over packs that are built,  *)
+(*          written once and dropped: a pack object is written, changed    *)
+(*          through its public surface and written again (Mutate /         *)
+(*          Rewrite: the laws of Part 3 hold for the content the object    *)
+(*          has AT THE MOMENT of each write, and the object holds at a     *)
+(*          write exactly what its last write and the mutations since left *)
+(*          in it), and several packs and containers are alive at the same *)
+(*          time (Use: the focus moves between objects; the laws hold for  *)
+(*          each of them whatever was done to the others in between).      *)
+(*          Stable: what a call handed to its caller -- encoded bytes, the *)
+(*          records blob of a container, a decoded pack, the unpacked      *)
+(*          inner packs -- is still what it was when it is looked at again *)
+(*          after later calls on other objects (Peek).                     *)
 (*                                                                         *)
 (* Leaves (see harness/c03/walk.go): records with k (kind), v (payload),   *)
 (* o (the "Struct.field" that holds it), optionally t (type code of a      *)
@@ -118,7 +132,7 @@ ErrLevelO == "TxRecord.ErrorLevel"
 ErrorO    == "TxRecord.Error"
 IsZero(l) == l.k = "i" /\ l.v = Zeros(8)
 
-\* m: message [type, code, mode, w, wd, sib, carried, bytes, perm]
+\* m: message [type, code, mode, w, wd, wdel, sib, carried, bytes, perm]
 \* perm: the pack holds a hash table without insertion order (IntIntMap, IntKeyMap) of two or more
 \* entries; such entries travel in table order, which is not state
 ErrLevelDefaulted(m, p) ==
@@ -227,27 +241,60 @@ KnownTypes == {"ParamPack", "CounterPack1", "ProfilePack", "ActiveStackPack", "T
 (***************************************************************************)
 (* State.                                                                  *)
 (***************************************************************************)
-VARIABLES msg,    \* the message on the wire (or None)
+VARIABLES msg,    \* the message on the wire (or None): the last write of the object in focus
           dec,    \* what the reader made of it: [rtype, r, consumed] (or None)
           ren,    \* bytes of the decoded pack written again: [re, rep, re2] (or None)
           store,  \* items (inner packs / records) registered for a container: sequence of messages
           box,    \* the container built from items: [kind, items, id, status, ...] (or None)
-          out     \* what unpacking the container returned: [d, ix] (see UnpackC) (or None)
+          out,    \* what unpacking the container returned: [d, ix] (see UnpackC) (or None)
+          cur,    \* the object in focus (a history of one object: 0 throughout)
+          shelf,  \* the other live objects: id -> [msg, dec, ren, box, out] as they were when the focus left them
+          held    \* the latest re-observation of what earlier calls on the object in focus handed out (or None)
 
-vars == <<msg, dec, ren, store, box, out>>
+vars == <<msg, dec, ren, store, box, out, cur, shelf, held>>
 
-Init == msg = None /\ dec = None /\ ren = None /\ store = <<>> /\ box = None /\ out = None
+NoObjects == [x \in {} |-> 0]
+Init == /\ msg = None /\ dec = None /\ ren = None /\ store = <<>> /\ box = None /\ out = None
+        /\ cur = 0 /\ shelf = NoObjects /\ held = None
+
+\* every action but Use / Peek: the focus stays, a re-observation is judged in the state it is made in
+Rest == UNCHANGED <<cur, shelf>> /\ held' = None
 
 \* ---- messages ----
+\* what an object holds after set was assigned and del removed (paths -> leaves)
+Apply(c, set, del) == [p \in (DOMAIN c \ del) \cup DOMAIN set |-> IF p \in DOMAIN set THEN set[p] ELSE c[p]]
+\* the content of the object after the write of m: what it held (w), with what Write itself changed (wd, wdel)
+After(m) == Apply(m.w, m.wd, m.wdel)
+WithCont(m, c) == [f \in DOMAIN m \cup {"cont"} |-> IF f = "cont" THEN c ELSE m[f]]
+
+\* a pack object is written for the first time
 Encode(m) ==
   /\ m.carried \subseteq DOMAIN m.w
-  /\ msg' = m /\ dec' = None /\ ren' = None
-  /\ UNCHANGED <<store, box, out>>
+  /\ msg' = WithCont(m, After(m)) /\ dec' = None /\ ren' = None
+  /\ UNCHANGED <<store, box, out>> /\ Rest
+
+\* the object in focus is changed through its public surface (an exported field assigned, a public
+\* mutator called): set = the leaves that hold another value or are new afterwards, del = the leaves gone
+Mutate(set, del) ==
+  /\ msg # None
+  /\ msg' = [msg EXCEPT !.cont = Apply(@, set, del)]
+  /\ UNCHANGED <<dec, ren, store, box, out>> /\ Rest
+
+\* ... and written AGAIN: it is the same object (same concrete type), it holds exactly what its
+\* last write and the mutations since left in it (nothing else -- no call on another object, no
+\* state the writer keeps -- changed it), and the laws below hold for THIS content
+Rewrite(m) ==
+  /\ msg # None
+  /\ m.type = msg.type /\ m.code = msg.code
+  /\ m.w = msg.cont
+  /\ m.carried \subseteq DOMAIN m.w
+  /\ msg' = WithCont(m, After(m)) /\ dec' = None /\ ren' = None
+  /\ UNCHANGED <<store, box, out>> /\ Rest
 
 Decode(rtype, r, consumed) ==
   /\ msg # None /\ dec = None
   /\ dec' = [rtype |-> rtype, r |-> r, consumed |-> consumed]
-  /\ UNCHANGED <<msg, ren, store, box, out>>
+  /\ UNCHANGED <<msg, ren, store, box, out>> /\ Rest
 
 \* re: right after decoding; rep: after the decoded pack's lazy sections were
 \* looked at (Absent if the type has none); re2: second generation (Absent unless
@@ -255,7 +302,40 @@ Decode(rtype, r, consumed) ==
 ReEncode(re, rep, re2) ==
   /\ dec # None /\ ren = None
   /\ ren' = [re |-> re, rep |-> rep, re2 |-> re2]
-  /\ UNCHANGED <<msg, dec, store, box, out>>
+  /\ UNCHANGED <<msg, dec, store, box, out>> /\ Rest
+
+\* ---- several live objects ----
+Focus == [msg |-> msg, dec |-> dec, ren |-> ren, box |-> box, out |-> out]
+Blank == [msg |-> None, dec |-> None, ren |-> None, box |-> None, out |-> None]
+\* the focus moves to object o (a new one, or one put aside earlier); the items registered for containers are shared
+Use(o) ==
+  /\ o # cur
+  /\ LET f == IF o \in DOMAIN shelf THEN shelf[o] ELSE Blank IN
+       msg' = f.msg /\ dec' = f.dec /\ ren' = f.ren /\ box' = f.box /\ out' = f.out
+  /\ shelf' = [x \in (DOMAIN shelf \cup {cur}) \ {o} |-> IF x = cur THEN Focus ELSE shelf[x]]
+  /\ cur' = o /\ held' = None
+  /\ UNCHANGED store
+
+\* what earlier calls on the object in focus handed out is looked at again.  h.what says which:
+\*   "bytes"  the encoding (the very slice the writer returned)        -> h.bytes
+\*   "r"      the decoded pack, projected again                        -> h.r
+\*   "d"      the unpacked inner packs / records, projected again      -> h.d
+\*   "box"    the records blob of the container: status byte, is it a gzip stream, does it hold the
+\*            concatenation of the inner packs                         -> h.status, h.gz, h.same
+Peek(h) ==
+  /\ "bytes" \in h.what => msg # None
+  /\ "r" \in h.what => dec # None
+  /\ "d" \in h.what => out # None
+  /\ "box" \in h.what => box # None
+  /\ held' = h
+  /\ box' = IF "box" \in h.what THEN [box EXCEPT !.status = h.status, !.gz = h.gz, !.same = h.same] ELSE box
+  /\ UNCHANGED <<msg, dec, ren, store, out, cur, shelf>>
+
+\* nothing a call returned changed behind the caller's back (the container's blob is judged by ZipLaw)
+Stable == held # None =>
+  /\ "bytes" \in held.what => held.bytes = msg.bytes
+  /\ "r" \in held.what => held.r = dec.r
+  /\ "d" \in held.what => held.d = out.d
 
 SameType == dec # None =>
               /\ dec.rtype = msg.type
@@ -276,7 +356,7 @@ ReEncodeIdentical == ren # None =>
 Register(m) ==
   /\ m.carried \subseteq DOMAIN m.w
   /\ store' = Append(store, m)
-  /\ UNCHANGED <<msg, dec, ren, box, out>>
+  /\ UNCHANGED <<msg, dec, ren, box, out>> /\ Rest
 
 \* kinds: "composite", "zip", "lszip" (inner packs), "records" (record list)
 Kinds == {"composite", "zip", "lszip", "records"}
@@ -295,7 +375,7 @@ Build(b) ==
   /\ b.kind \in Kinds
   /\ \A i \in Range(b.items) : i \in DOMAIN store
   /\ box' = b /\ out' = None
-  /\ UNCHANGED <<msg, dec, ren, store>>
+  /\ UNCHANGED <<msg, dec, ren, store>> /\ Rest
 
 \* what unpacking returned: d = tuple of [type, r], ix = for every position the
 \* index into d of what stands there (a long list of few distinct records is
@@ -304,7 +384,7 @@ UnpackC(d, ix) ==
   /\ box # None /\ out = None
   /\ \A i \in DOMAIN ix : ix[i] \in DOMAIN d
   /\ out' = [d |-> d, ix |-> ix]
-  /\ UNCHANGED <<msg, dec, ren, store, box>>
+  /\ UNCHANGED <<msg, dec, ren, store, box>> /\ Rest
 Unpack(o) == UnpackC(o, [i \in 1..Len(o) |-> i])
 
 ZipLaw == (box # None /\ box.kind \in Stamping) =>
@@ -325,7 +405,7 @@ UnpackLaw == (box # None /\ out # None) =>
        LET m == store[pr[1]] IN
        InnerOK(IF box.kind \in Stamping THEN Stamp(m, box.id) ELSE m, out.d[pr[2]])
 
-InvAll == SameType /\ CarriedRestored /\ ExactConsumption /\ ReEncodeIdentical /\ ZipLaw /\ UnpackLaw
+InvAll == SameType /\ CarriedRestored /\ ExactConsumption /\ ReEncodeIdentical /\ ZipLaw /\ UnpackLaw /\ Stable
 
 Next == FALSE   \* the companions (MC_PackCodec, Trace_PackCodec) supply the next-state relations
 =============================================================================
